@@ -325,13 +325,28 @@ def metaDecodePayload (cs : Charset) (t : MetaType) (data : List Nat) : Except E
     | a :: b :: c :: _ => .ok [.nat ((a <<< 16) ||| (b <<< 8) ||| c)]
     | _ => .error .IndexError
   | .smpte_offset =>
+    -- the decoder assigns attribute by attribute through the checked `__setattr__`:
+    -- the first failing step decides the exception
     match data with
-    | a :: b :: c :: d :: e :: _ =>
-      match frameRates.find? (fun r => r.1 == a >>> 5) with
-      | some r => .ok [if r.2 % 100 = 0 then .nat (r.2 / 100) else .flt (Int.ofNat r.2), .nat (a &&& 0x1f), .nat b, .nat c, .nat d, .nat e]
-      | none => .error .KeyError
     | [] => .error .IndexError
-    | a :: _ => if (frameRates.find? (fun r => r.1 == a >>> 5)).isSome then .error .IndexError else .error .KeyError
+    | a :: r1 =>
+      match frameRates.find? (fun r => r.1 == a >>> 5) with
+      | none => .error .KeyError
+      | some fr =>
+        let rate : PyVal := if fr.2 % 100 = 0 then .nat (fr.2 / 100) else .flt (Int.ofNat fr.2)
+        match r1 with
+        | [] => .error .IndexError
+        | b :: r2 => if b > 59 then .error .ValueError else
+          match r2 with
+          | [] => .error .IndexError
+          | c :: r3 => if c > 59 then .error .ValueError else
+            match r3 with
+            | [] => .error .IndexError
+            | d :: r4 =>
+              match r4 with
+              | [] => .error .IndexError
+              | e :: _ => if e > 99 then .error .ValueError else
+                .ok [rate, .nat (a &&& 0x1f), .nat b, .nat c, .nat d, .nat e]
   | .time_signature =>
     match data with
     | a :: b :: c :: d :: _ => .ok [.nat a, .nat (2 ^ b), .nat c, .nat d]
